@@ -48,7 +48,7 @@ func scenarios(tier string) []engine.Scenario {
 					continue
 				}
 				scs = append(scs, seqScenario(cc, cfg, withP))
-				if cc.concurrent && cc.kind == shallow && len(cc.ops) > 0 {
+				if cc.concurrent && cc.kind != deep && len(cc.ops) > 0 {
 					scs = append(scs, concScenario(cc, cfg, withP, 2, 1))
 					if len(cc.ops) <= 2 || tier == "thorough" {
 						scs = append(scs, concScenario(cc, cfg, withP, 2, 2)) // programs of two operations per thread
@@ -80,7 +80,7 @@ func main() {
 		Assumptions: []string{
 			"reduction lemma (DESIGN §2 E3): the library has no synchronisation and no inter-goroutine communication, so footprint isolation of every operation in every op-granular interleaving implies race freedom of all fine-grained interleavings",
 			"writes that restore the previous value are invisible to snapshot diffs",
-			"WithKey/WithPRNG style copies are documented as sharing buffers: excluded from the concurrency and footprint oracles",
+			"WithKey/WithPRNG style copies documented as sharing buffers are excluded from the concurrency and footprint oracles; those documented as concurrently usable (rlwe.Decryptor.WithKey) are judged like shallow copies",
 		},
 		Scenarios:      scenarios,
 		QuickBudget:    150 * time.Second,
